@@ -59,20 +59,24 @@ type CaseSpec struct {
 type runner struct {
 	r    *vlib.Run
 	id   uint16
+	mu   sync.Mutex
 	seen map[string]bool
 }
 
 // viol reports a violation; the (costly) replay case is only built for the
 // first occurrence of a signature in this process.
 func (run *runner) viol(sig, what string, mk func() CaseSpec) {
+	run.mu.Lock()
 	if run.seen == nil {
 		run.seen = map[string]bool{}
 	}
-	if run.seen[sig] {
+	first := !run.seen[sig]
+	run.seen[sig] = true
+	run.mu.Unlock()
+	if !first {
 		run.r.Violation(sig, what, nil)
 		return
 	}
-	run.seen[sig] = true
 	run.r.Violation(sig, what, mk())
 }
 
@@ -154,6 +158,15 @@ func main() {
 	wg.Wait()
 
 	r.Require("scenarios_judged", int64(n*2/3))
+	r.Require("judged_mode/withdraw", int64(n/4))
+	r.Require("judged_mode/repoint", int64(n/8))
+	r.Require("judged_victim_cut/secure", int64(n/8))
+	r.Require("judged_victim_cut/insecure", int64(n/8))
+	r.Require("judged_depth/2", int64(n/10))
+	r.Require("judged_depth/3", int64(n/10))
+	r.Require("judged_depth/4", int64(n/10))
+	r.Require("answer_cuts_inspected", int64(n*20))
+	r.Require("mid_flight_inspections", int64(n/6))
 	r.Require("referrals_logged", int64(n*3))
 	r.Require("probes_after_bound", int64(n*8))
 	r.Require("after/new-nxdomain", int64(n))
@@ -302,7 +315,12 @@ func (run *runner) advance(w *world, d time.Duration) bool {
 // checkLeases compares every stored delegation deadline on the path with the
 // latest instant the referrals sent so far can have granted (white-box view
 // of "measured from the moment the referral was observed").
-func (run *runner) checkLeases(w *world) {
+func (run *runner) checkLeases(w *world) { run.checkLeasesAt(w, "") }
+
+// checkLeasesAt is also called while a resolution is in flight (from a
+// scripted server that is holding one of its queries): a referral whose
+// window is still open was observed no later than now.
+func (run *runner) checkLeasesAt(w *world, when string) {
 	lim := w.bounds(false)
 	w.mu.Lock()
 	sk := w.sk
@@ -317,11 +335,15 @@ func (run *runner) checkLeases(w *world) {
 			run.r.Eval(1)
 			expV := l.ExpiresAt.Sub(w.t0) + sk
 			if expV > lim.lease[j] {
-				c := run.caseOf(w, nil, nil)
-				c.Note = fmt.Sprintf("delegation cache entry for %s (cd=%v) expires at virtual %v, but no referral sent so far grants a lease past %v", w.apex[j], cd, expV, lim.lease[j])
-				c.Bound = lim.lease[j].String()
-				run.r.Violation(vlib.Sig("lease", "stored-deadline-exceeds-grant"),
-					fmt.Sprintf("delegation of %s stored until V=%v although min(NS TTL, DS TTL, ancestors, 12h) from the latest referral observation window ends at V=%v (%v too long) [%s]", w.apex[j], expV.Round(time.Millisecond), lim.lease[j].Round(time.Millisecond), (expV - lim.lease[j]).Round(time.Microsecond), w.sc.Shape()), c)
+				j, cd := j, cd
+				run.viol(vlib.Sig("lease", "stored-deadline-exceeds-grant"),
+					fmt.Sprintf("delegation of %s stored until V=%v although min(NS TTL, DS TTL, ancestors, 12h) from the latest referral observation window ends at V=%v (%v too long%s) [%s]", w.apex[j], expV.Round(time.Millisecond), lim.lease[j].Round(time.Millisecond), (expV - lim.lease[j]).Round(time.Microsecond), when, w.sc.Shape()),
+					func() CaseSpec {
+						c := run.caseOf(w, nil, nil)
+						c.Note = fmt.Sprintf("delegation cache entry for %s (cd=%v) expires at virtual %v, but no referral sent so far grants a lease past %v%s", w.apex[j], cd, expV, lim.lease[j], when)
+						c.Bound = lim.lease[j].String()
+						return c
+					})
 			}
 		}
 	}
@@ -369,31 +391,42 @@ func (run *runner) checkCuts(w *world) {
 		run.r.Eval(1)
 		id := fmt.Sprintf("%s/%s cd=%v", e.Question, dns.TypeToString[e.Qtype], e.CD)
 		if e.CutUntil.IsZero() {
-			c := run.caseOf(w, nil, nil)
-			c.Note = "answer-cache entry " + id + " carries no delegation cut at all"
-			run.r.Violation(vlib.Sig("cut", "answer-cached-without-cut"),
-				fmt.Sprintf("answer-cache entry %s (data of %s, reached through learned delegations) is stored without any cut deadline [%s]", id, w.apex[j], w.sc.Shape()), c)
+			run.viol(vlib.Sig("cut", "answer-cached-without-cut"),
+				fmt.Sprintf("answer-cache entry %s (data of %s, reached through learned delegations) is stored without any cut deadline [%s]", id, w.apex[j], w.sc.Shape()),
+				func() CaseSpec {
+					c := run.caseOf(w, nil, nil)
+					c.Note = "answer-cache entry " + id + " carries no delegation cut at all"
+					return c
+				})
 			continue
 		}
 		cutV := e.CutUntil.Sub(w.t0) + sk
 		if debug && os.Getenv("C08_DEBUG") == "2" {
 			fmt.Fprintf(os.Stderr, "    entry %-40s cut=%v lease=%v grant=%v\n", id, cutV, lim.lease[j], lim.grant[j])
 		}
+		lease, grant := lim.lease[j], lim.grant[j]
 		switch {
-		case cutV <= lim.lease[j]:
+		case cutV <= lease:
 			run.r.Count("answer_cuts_within_lease", 1)
-		case cutV <= lim.grant[j]:
-			c := run.caseOf(w, nil, nil)
-			c.Bound = lim.lease[j].String()
-			c.Note = fmt.Sprintf("answer-cache entry %s: cut deadline V=%v; lease of %s (12 h ceiling included) ends V=%v; parent-granted TTLs alone would end V=%v", id, cutV, w.apex[j], lim.lease[j], lim.grant[j])
-			run.r.Violation(vlib.Sig("ceiling", "answer-cut-ignores-12h-ceiling"),
-				fmt.Sprintf("answer-cache entry %s may be served until V=%v, %v after the lease of %s ends (V=%v): its cut deadline is the referral's TTL without the 12 h ceiling the delegation itself gets [%s]", id, cutV.Round(time.Millisecond), (cutV - lim.lease[j]).Round(time.Second), w.apex[j], lim.lease[j].Round(time.Millisecond), w.sc.Shape()), c)
+		case cutV <= grant:
+			run.viol(vlib.Sig("ceiling", "answer-cut-ignores-12h-ceiling"),
+				fmt.Sprintf("answer-cache entry %s may be served until V=%v, %v after the lease of %s ends (V=%v): its cut deadline is the referral's TTL without the 12 h ceiling the delegation itself gets [%s]", id, cutV.Round(time.Millisecond), (cutV - lease).Round(time.Second), w.apex[j], lease.Round(time.Millisecond), w.sc.Shape()),
+				func() CaseSpec {
+					c := run.caseOf(w, nil, nil)
+					c.Bound = lease.String()
+					c.Granted = grant.String()
+					c.Note = fmt.Sprintf("answer-cache entry %s: cut deadline V=%v; lease of %s (12 h ceiling included) ends V=%v; parent-granted TTLs alone would end V=%v", id, cutV, w.apex[j], lease, grant)
+					return c
+				})
 		default:
-			c := run.caseOf(w, nil, nil)
-			c.Bound = lim.grant[j].String()
-			c.Note = fmt.Sprintf("answer-cache entry %s: cut deadline V=%v exceeds everything the parents granted (V=%v)", id, cutV, lim.grant[j])
-			run.r.Violation(vlib.Sig("cut", "answer-cut-exceeds-grant"),
-				fmt.Sprintf("answer-cache entry %s may be served until V=%v although no referral sent for %s (or above) grants anything past V=%v (%v too long) [%s]", id, cutV.Round(time.Millisecond), w.apex[j], lim.grant[j].Round(time.Millisecond), (cutV - lim.grant[j]).Round(time.Microsecond), w.sc.Shape()), c)
+			run.viol(vlib.Sig("cut", "answer-cut-exceeds-grant"),
+				fmt.Sprintf("answer-cache entry %s may be served until V=%v although no referral sent for %s (or above) grants anything past V=%v (%v too long) [%s]", id, cutV.Round(time.Millisecond), w.apex[j], grant.Round(time.Millisecond), (cutV - grant).Round(time.Microsecond), w.sc.Shape()),
+				func() CaseSpec {
+					c := run.caseOf(w, nil, nil)
+					c.Bound = grant.String()
+					c.Note = fmt.Sprintf("answer-cache entry %s: cut deadline V=%v exceeds everything the parents granted (V=%v)", id, cutV, grant)
+					return c
+				})
 		}
 	}
 }
@@ -517,6 +550,12 @@ func (run *runner) scenario(index int) {
 	}
 	defer rs.Close()
 	w.rs = rs
+	if w.glueless != "" {
+		w.midFlight = func() {
+			r.Count("mid_flight_inspections", 1)
+			run.checkLeasesAt(w, "; inspected while the lookup of the glueless NS host "+w.glueless+" was in flight")
+		}
+	}
 	r.Count("scenarios", 1)
 	if debug {
 		fmt.Fprintln(os.Stderr, "S"+sc.String())
@@ -699,8 +738,8 @@ func (run *runner) scenario(index int) {
 				// past the lease only because of the 12 h ceiling: the
 				// referral's own TTLs (and every ancestor's) still cover it
 				r.Count("after_bound_old_within_parent_ttl", 1)
-				run.viol(vlib.Sig("ceiling", "served-after-12h-ceiling", kind),
-					fmt.Sprintf("%s answered with data learned through the OLD delegation of %s at V=%v, %v after its lease ended (V=%v, decided by the 12 h ceiling; the referral TTLs alone run to V=%v): %s [%s]",
+				run.viol(vlib.Sig("ceiling", "served-after-12h-ceiling"),
+					fmt.Sprintf("%s answered with data (kind "+kind+") learned through the OLD delegation of %s at V=%v, %v after its lease ended (V=%v, decided by the 12 h ceiling; the referral TTLs alone run to V=%v): %s [%s]",
 						p, w.victimApex, res.vStart.Round(time.Millisecond), (res.vStart - bound).Round(time.Millisecond), bound.Round(time.Millisecond), granted.Round(time.Millisecond), detail, sc.Shape()), mk)
 				return
 			}
@@ -779,6 +818,14 @@ func (run *runner) scenario(index int) {
 	r.Count("prefetch_refreshes_observed", int(prefetches()-prefetch0))
 	if judged > 0 {
 		r.Count("scenarios_judged", 1)
+		r.Count("judged_mode/"+sc.Mode, 1)
+		if sc.Levels[v-1].Secure {
+			r.Count("judged_victim_cut/secure", 1)
+		} else {
+			r.Count("judged_victim_cut/insecure", 1)
+		}
+		r.Count(fmt.Sprintf("judged_depth/%d", d), 1)
+		r.Count(fmt.Sprintf("judged_victim_level/%d", v), 1)
 		r.Distinct(sc.Shape())
 		r.Sample(map[string]any{"scenario": sc.String(), "shape": sc.Shape(), "bound_virtual": bound.String(), "judged_after_bound": judged, "referrals_logged": nref})
 	}
